@@ -149,7 +149,7 @@ func runProperty(ld *Loader, specs *Specs, id string, timeoutS int, outDir strin
 
 func contractDerived(kind string) bool {
 	switch kind {
-	case "post", "inv-entry", "inv-keep", "variant", "frame", "event", "pre", "lemma", "lock", "monitor", "stable", "objinv", "nopanic":
+	case "post", "inv-entry", "inv-keep", "variant", "frame", "event", "pre", "lemma", "lock", "monitor", "stable", "objinv", "nopanic", "forbid", "cbinv-entry", "cbinv-keep":
 		return true
 	}
 	return false
